@@ -377,7 +377,9 @@ def rule_strip(ctx, res):
     sel = []            # (function, node, condition expr over one statement)
     for (g, n) in norm.region_nodes(ctx, f):
         if isinstance(n, (ast.ListComp, ast.GeneratorExp)) and any(
-                '.root.stats' in u(norm.subst_locals(g.node, gen.iter))
+                isinstance(norm.subst_locals(g.node, gen.iter),
+                           (ast.Attribute, ast.Name)) and
+                u(norm.subst_locals(g.node, gen.iter)).endswith('.root.stats')
                 for gen in n.generators):
             gen = n.generators[0]
             cond = gen.ifs[0] if len(gen.ifs) == 1 else (
@@ -386,7 +388,8 @@ def rule_strip(ctx, res):
             sel.append((g, n, len(n.generators) == 1, gen.target, cond))
         elif isinstance(n, ast.Call) and isinstance(n.func, ast.Name) and \
                 n.func.id == 'filter' and len(n.args) == 2 and \
-                '.root.stats' in u(norm.subst_locals(g.node, n.args[1])):
+                u(norm.subst_locals(g.node, n.args[1])).endswith(
+                    '.root.stats'):
             pred = n.args[0]
             tgt = ast.Name(id='_s', ctx=ast.Load())
             cond = None
